@@ -6,6 +6,7 @@
    running operation; `events` is the chronological trace. *)
 From Coq Require Import List NArith Bool.
 From Verif Require Import Model.Serializer Proofs.Serializer.
+From Verif Require Import Gen.NodeMakerKey Proofs.NodeMakerKey.
 Import ListNotations.
 Local Open Scope N_scope.
 
@@ -69,6 +70,32 @@ Theorem same_cap_same_node :
     let '(_, n2) := create_from_cap c1 k f2 in n1 = n2.
 Proof. exact cache_same_cap_same_node. Qed.
 Print Assumptions same_cap_same_node.
+
+(* WHICH entry a lookup uses (memokey is translated from nodemaker.py on every run): the read cap
+   passed alongside a write cap -- as a parent directory's child lookup does -- never selects
+   a different node, so every route to one write cap shares one serializer *)
+Theorem same_writecap_same_node :
+  forall c di w ro1 ro2 f1 f2,
+    w <> [] ->
+    exists k, memokey di (Some w) ro1 = Some k /\ memokey di (Some w) ro2 = Some k /\
+      let '(c1, n1) := create_from_cap c k f1 in
+      let '(_, n2) := create_from_cap c1 k f2 in n1 = n2.
+Proof. exact same_writecap_same_node_ok. Qed.
+Print Assumptions same_writecap_same_node.
+
+(* and two lookups share an entry ONLY if they resolve the same cap under the same deep_immutable flag *)
+Theorem memokey_injective :
+  forall di di' wc rc wc' rc' k,
+    memokey di wc rc = Some k -> memokey di' wc' rc' = Some k ->
+    di = di' /\ py_or wc rc = py_or wc' rc'.
+Proof. exact memokey_inj_ok. Qed.
+Print Assumptions memokey_injective.
+
+Example ex_memokey :
+  memokey false (Some [85; 82; 73]) None = Some [77; 85; 82; 73] /\
+  memokey false (Some [85; 82; 73]) (Some [1; 2]) = Some [77; 85; 82; 73] /\
+  memokey true None (Some [9]) = Some [73; 9] /\ memokey false None None = None /\ memokey false (Some []) (Some []) = None.
+Proof. vm_compute. repeat split. Qed.
 
 (* non-vacuity: a run with a failure in the middle, two queued requests, ends idle with
    all four operations started in order *)
